@@ -9,7 +9,7 @@
 #define XV_XCMCORE_ENV_H
 #include <poll.h>
 
-_Bool xv_poll_failed;      /* ghost: a poll() call has failed (set here, never cleared) */
+/* ghost xv_poll_failed (declared in contracts/xcmcore.h, before the TU): a poll() call has failed; set here, never cleared */
 
 /* TRUSTED(kernel) poll(2): any result the real call can have -- failure with one of the documented errnos (EINTR: a
  * signal arrived while waiting), 0 = timed out (only if a timeout was given), or 1..nfds ready descriptors with
